@@ -43,6 +43,8 @@ MANIFEST_ENTRY = {
 }
 
 FIELDS = [{"id": 1, "name": "x", "type": "long", "required": False}]
+# a second creator's (different) idea of the schema
+FIELDS_B = [{"id": 1, "name": "x", "type": "long", "required": False}, {"id": 2, "name": "y", "type": "string", "required": False}]
 
 
 def yield_filter(op: str, path: str, phase: tuple) -> bool:
@@ -72,6 +74,20 @@ def actor_body(kind: str, root: str, holder: Dict[str, Any], name: str) -> Calla
             t = datashard.create_table(root, Schema(schema_id=1, fields=FIELDS))
             S_mark(holder, name, "created")
             t.append_records([{"x": 4242}])
+        elif kind == "create_b_append":
+            # a creator with a DIFFERENT schema; whoever wins, its schema-less append must follow the PERSISTED schema
+            t = datashard.create_table(root, Schema(schema_id=1, fields=FIELDS_B))
+            S_mark(holder, name, "created")
+            try:
+                names = holder["_schema_probe"]()
+            except Exception:       # noqa: BLE001 - no pointer yet (the table exists through recovery): ask the metadata itself
+                md = t.metadata_manager.refresh()
+                cur_schema = next(sch for sch in md.schemas if sch.schema_id == md.current_schema_id)
+                names = [f["name"] for f in cur_schema.fields]
+            row = {"x": 4242}
+            if "y" in names:
+                row["y"] = "b"
+            t.append_records([row])
         else:
             raise ValueError(kind)
         holder[name] = t
@@ -131,6 +147,13 @@ def run_case(ctx, backend: str, init: str, kinds: List[str], chooser_factory) ->
             return None         # no pointer (yet / lost): nothing to compare
         return _json.loads(fetch("metadata/" + name))["table_uuid"]
     holder["_identity_probe"] = identity_probe
+
+    def schema_probe() -> List[str]:
+        import json as _json
+        md = _json.loads(fetch("metadata/" + fetch(P.HINT).decode("utf-8").strip()))
+        cur = next(sch for sch in md["schemas"] if sch["schema_id"] == md["current_schema_id"])
+        return [f["name"] for f in cur["fields"]]
+    holder["_schema_probe"] = schema_probe
     with S.patched(sc, factory, shared_rlock=True):
         pre = None
         if init != "absent":
@@ -168,6 +191,12 @@ def run_case(ctx, backend: str, init: str, kinds: List[str], chooser_factory) ->
             md = t.metadata_manager.refresh()
             uuids[n] = md.table_uuid if md else None
         out["uuids"] = uuids
+        # the table as the LIBRARY reads it through a fresh handle (full scan: all data files concatenated)
+        try:
+            lib_rows = datashard.load_table(root).scan()
+            out["library_scan"] = sorted(r.get("x") for r in lib_rows)
+        except Exception as e:      # noqa: BLE001
+            out["library_scan"] = "raised: " + repr(e)[:200]
         out["ident_at_return"] = dict(holder.get("_ident_at_return", {}))
         out["pre"] = pre
         out["meta_files"] = sorted(k for k in (store.objects if store is not None else []) if "/metadata/v" in k) if store is not None else \
@@ -203,6 +232,10 @@ def oracle(out: Dict[str, Any]) -> Optional[str]:
         kind = out["kinds"][int(n[1:])]
         if st != "ok" and not (kind == "open" and "No Iceberg table" in d and out["init"] == "absent"):
             return f"{kind} call {n} raised: {d}"
+    if isinstance(out.get("library_scan"), str) and any(st == "ok" for st, _d in out["outcomes"].values()) and "error" not in fin:
+        return f"after the run a fresh handle cannot scan the table: {out['library_scan']}"
+    if isinstance(out.get("library_scan"), list) and "error" not in fin and out["library_scan"] != sorted(r["x"] for r in fin["rows"]):
+        return f"a fresh handle's scan {out['library_scan']} differs from the table's content {sorted(r['x'] for r in fin['rows'])}"
     # a table that a successful create / open call returned keeps its identity
     for n, u in sorted(out.get("ident_at_return", {}).items()):
         if u is not None and "error" not in fin and u != fin["meta"]["table_uuid"]:
@@ -219,11 +252,11 @@ def oracle(out: Dict[str, Any]) -> Optional[str]:
             return f"identity of the existing table was replaced: {pre['meta']['table_uuid']} -> {fin['meta']['table_uuid']}"
         if fin["meta"]["schemas"] != pre["meta"]["schemas"] or fin["meta"]["current_schema_id"] != pre["meta"]["current_schema_id"]:
             return "persisted schema of the existing table was replaced"
-        want = sorted(r["x"] for r in pre["rows"]) + ([4242] if "create_append" in out["kinds"] else [])
+        want = sorted(r["x"] for r in pre["rows"]) + [4242] * sum(1 for k in out["kinds"] if k in ("create_append", "create_b_append"))
         if sorted(r["x"] for r in fin["rows"]) != sorted(want):
             return f"committed data of the existing table changed: {sorted(r['x'] for r in fin['rows'])} vs {sorted(want)}"
-    elif "create_append" in out["kinds"]:
-        if sorted(r["x"] for r in fin["rows"]) != [4242]:
+    elif any(k in ("create_append", "create_b_append") for k in out["kinds"]):
+        if sorted(r["x"] for r in fin["rows"]) != [4242] * sum(1 for k in out["kinds"] if k in ("create_append", "create_b_append")):
             return f"first appender's rows not in the table: {fin['rows']}"
     return None
 
@@ -374,6 +407,8 @@ def run(ctx) -> None:
             sets = [["create", "create"], ["create", "create_append"], ["create", "open"], ["table", "create", "create"]]
             if quick:
                 sets = sets[:2] if init == "absent" else sets[1:2]
+            if init == "absent":
+                sets = sets + [["create_append", "create_b_append"], ["create_b_append", "create_append"]]   # creators that disagree about the schema
             for kinds in sets:
                 plans.append((backend, init, kinds))
     exprs, metas, bad = [], [], []
@@ -399,6 +434,9 @@ def run(ctx) -> None:
                           if e["op"] in ("write_file", "write_file_cas") and P.path_class(e["path"]) == "hint"]
             if any(k == "commit" for _i, k in ptr_writes) and any(k == "init" and i > min(j for j, kk in ptr_writes if kk == "commit") for i, k in ptr_writes):
                 outside[0] += 1
+                continue
+            if "create_b_append" in kinds:
+                outside[0] += 1          # two appenders: their commits are C01's machine; creation is judged by the oracle here
                 continue
             exprs.append(model_expr(out, evs))
             metas.append((backend, init, kinds, dev, out, evs))
